@@ -42,9 +42,9 @@ RETRY_RULE = ("retry: one request through the real proxy (in-process, loopback) 
               "distinct = distinct scenarios; non-trivial = all (each runs the real proxy end to end)")
 PROPS["C04"] = {
     "module": "CqlVerif.Props.C04",
-    "gens": ["policy"],
+    "gens": ["policy", "retrygate"],
     "streams": [RETRY_STREAM, {"name": "idem", "quick": 1500, "thorough": 100000}],
-    "claim": "Lean theorem no_unsafe_reexec over Model/Retry for all plans, outcome scripts, re-prepare outcomes and host failures between attempts; policy decisions are generated from retrypolicy.go on every run; model tied to request.go/clientconn.go by the e2e retry stream, NoUnsafeReexec evaluated on every observed trace",
+    "claim": "Lean theorem retry_gate_shape_ok over the regenerated text of checkIdempotent / OnClose / OnResult / handleErrorResult (Gen/RetryGateFacts.lean, logging left out) against Spec/RetryGateShape; Lean theorem no_unsafe_reexec over Model/Retry for all plans, outcome scripts, re-prepare outcomes and host failures between attempts; policy decisions are generated from retrypolicy.go on every run; model tied to request.go/clientconn.go by the e2e retry stream, NoUnsafeReexec evaluated on every observed trace",
     "note": "trusted: Lean kernel, policy translator, hand-written Retry model + e2e correspondence (fakecass scripted outcomes); statement classification is C06's theorem plus the catalogue of request kinds whose ground truth is attached by construction; whether a backend applied a write is outside by definition",
     "rule": RETRY_RULE,
     "trusted_base": [KERNEL, DRIVER, HARNESS, "Gen/RetryPolicy.lean regenerated by the boolean-function translator from proxy/retrypolicy.go",
